@@ -37,7 +37,15 @@ vars == <<O, active, pool, qS, qU, plist, clist, pc, resources, rwait, rinc, act
           todo, towait, toSched, curPrio, lastw, uany, hist, H, where, rep, rel, done, creq>>
 
 Prio(t)   == Shape[t].prio
-Hist(t)   == IF Shape[t].colo = "none" THEN {} ELSE hist[Shape[t].colo]
+\* nodes a tagged task may use ({} == no restriction): the nodes its colocate tag used before; a NEW tag
+\* marked exclusive avoids the nodes any tag has used so far (kept under the reserved key TAGGED, it only
+\* grows) - unless every node is tagged already, then it shares
+TAGGED    == "__tagged"
+Excl(t)   == IF "excl" \in DOMAIN Shape[t] THEN Shape[t].excl ELSE FALSE
+Hist(t)   == IF Shape[t].colo = "none" THEN {}
+             ELSE IF hist[Shape[t].colo] # {} THEN hist[Shape[t].colo]
+             ELSE IF Excl(t) /\ hist[TAGGED] # {} /\ (Node \ hist[TAGGED]) # {} THEN Node \ hist[TAGGED]
+             ELSE {}
 Tags      == {Shape[t].colo : t \in Tasks} \ {"none"}
 FitsNow(t)  == Fits(O, Shape[t], Hist(t), FALSE, FALSE)          \* intended accounting
 FitsCode(t) == Fits(O, Shape[t], Hist(t), DevNoLfsCheck, DevFracSameGpu)
@@ -52,7 +60,7 @@ Init ==
   /\ plist = {} /\ clist = {}
   /\ pc = "top" /\ resources = TRUE /\ rwait = "T" /\ rinc = "N" /\ act = FALSE
   /\ todo = <<>> /\ towait = {} /\ toSched = {} /\ curPrio = -1 /\ lastw = FALSE /\ uany = FALSE
-  /\ hist = [g \in Tags |-> {}]
+  /\ hist = [g \in Tags \cup {TAGGED} |-> {}]
   /\ H = [t \in Tasks |-> <<>>]
   /\ where = [t \in Tasks |-> "none"]
   /\ rep = [t \in Tasks |-> 0] /\ rel = [t \in Tasks |-> 0]
@@ -133,7 +141,7 @@ GrantEffect(t) ==
   /\ active' = active + 1
   /\ H' = [H EXCEPT ![t] = p]
   /\ hist' = IF Shape[t].colo = "none" THEN hist
-             ELSE [hist EXCEPT ![Shape[t].colo] = NodesOf(p)]
+             ELSE [hist EXCEPT ![Shape[t].colo] = NodesOf(p), ![TAGGED] = @ \cup NodesOf(p)]
   /\ where' = [where EXCEPT ![t] = "started"]
   /\ rep' = [rep EXCEPT ![t] = @ + 1]
 
